@@ -28,7 +28,7 @@ INTP_CALLS = {"np.digitize", "np.searchsorted", "np.argsort", "np.ravel_multi_in
               "np.lexsort", "np.argpartition"}
 INTP_METHODS = {"argsort", "searchsorted", "argmax", "argmin", "get_indexer", "get_indexer_for"}
 # (call, position of the intp element in the returned tuple)
-INTP_TUPLE_CALLS = {"pd.factorize": 0, "pandas.factorize": 0}
+INTP_TUPLE_CALLS = {"pd.factorize": 0, "pandas.factorize": 0, "np.unique": 1, "numpy.unique": 1}    # np.unique(x, return_inverse=True)[1]
 PRESERVING_METHODS = {"reshape", "copy", "ravel", "squeeze", "flatten", "transpose", "swapaxes", "view"}
 PRESERVING_CALLS = {"np.broadcast_to", "np.reshape", "np.ravel", "np.squeeze", "np.ascontiguousarray", "np.copy", "np.atleast_1d", "cast", "np.asarray",
                     "np.array", "np.where"}
@@ -585,4 +585,91 @@ def rule_closedside(ctx) -> RuleResult:
         res.report(f"{f.qualname}|outer-edge-unmasked", f.where(), f.qualname,
                    "np.digitize codes are used without an out-of-range mask on the outer edge: labels beyond the last edge get the code len(bins)-1, "
                    "an index past the last bin")
+    return res
+
+
+# ---------------------------------------------------------------------------------------------
+# R-MISSINGCODE (C01, C05, C07): a missing label (NaN / NaT) is coded -1 by every code producer.
+# pd.factorize does that itself.  np.searchsorted / np.digitize / np.unique do not (NaN sorts last and gets an ordinary code): a code array
+# taken from them must, in the same branch, receive -1 under a mask that is true for missing labels -- a mask mentioning isnull/isnan of the
+# labels, or the negation of an ordering comparison of the labels (comparisons with NaN/NaT are False) -- unless the branch is guarded to label
+# kinds that have no missing value (dtype.kind in a subset of "iub").
+MISSING_AWARE = {"pd.factorize", "pandas.factorize"}
+MISSING_UNAWARE = {"np.searchsorted": None, "np.digitize": None, "np.unique": 1, "numpy.unique": 1, "np.argsort": None}
+_NULL_TESTS = ("isnull(", "np.isnan(", "pd.isna(", "pd.isnull(", "isna(", "np.isnat(", "notnull(")
+
+
+def rule_missingcode(ctx) -> RuleResult:
+    res = RuleResult("R-MISSINGCODE", "every producer of group codes sends missing labels (NaN / NaT) to -1", min_instances=4)
+    f, labels, codes = _producer(ctx)
+    pm = parents_map(f.node)
+    derived = _label_derived(f, labels)
+    n_defs = 0
+    for a in walk_own(f.node):
+        if not isinstance(a, ast.Assign) or len(a.targets) != 1:
+            continue
+        tgt, val = a.targets[0], a.value
+        code = None
+        if isinstance(tgt, ast.Name) and tgt.id in codes:
+            code, pos = tgt.id, None
+        elif isinstance(tgt, (ast.Tuple, ast.List)):
+            for i, e in enumerate(tgt.elts):
+                if isinstance(e, ast.Name) and e.id in codes:
+                    code, pos = e.id, i
+        if code is None or not isinstance(val, ast.Call):
+            continue
+        fn = norm(val.func)
+        if fn in MISSING_AWARE:
+            n_defs += 1
+            res.inst(f"{f.qualname}: {code} <- {fn}: missing-aware producer", f"{fn}")
+            continue
+        if fn not in MISSING_UNAWARE or not (names_in(val) & derived):
+            continue
+        if MISSING_UNAWARE[fn] is not None and pos is not None and pos != MISSING_UNAWARE[fn]:
+            continue
+        n_defs += 1
+        # (a) guard to kinds without a missing value
+        facts = _expand_flags(f, guard_facts(a, pm))
+        kinds_ok = False
+        for at, pol in facts:
+            if pol and ".dtype.kind in " in at:
+                lit = at.split(" in ", 1)[1].strip().strip("'\"")
+                base = at.split(".dtype.kind", 1)[0]
+                if base in derived and lit and set(lit) <= set("iub"):
+                    kinds_ok = True
+        # (b) a -1 store under a null-true mask in the same branch
+        blk = _enclosing_block(a, pm)
+        masked = None
+        for st in blk:
+            for n in ast.walk(st):
+                if isinstance(n, ast.Assign) and len(n.targets) == 1 and isinstance(n.targets[0], ast.Subscript) \
+                        and isinstance(n.targets[0].value, ast.Name) and n.targets[0].value.id == code and norm(n.value) == "-1":
+                    clo = _local_closure(f, n.targets[0].slice)
+                    txt = " ".join(norm(e) for e in clo)
+                    null_test = any(w in txt for w in _NULL_TESTS) and any(names_in(e) & derived for e in clo)
+                    negated_cmp = False
+                    sl = n.targets[0].slice
+                    if isinstance(sl, ast.UnaryOp) and isinstance(sl.op, ast.Invert):
+                        for e in _local_closure(f, sl.operand):
+                            for c in ast.walk(e):
+                                if isinstance(c, ast.Compare) and len(c.ops) == 1 and isinstance(c.ops[0], (ast.Lt, ast.LtE, ast.Gt, ast.GtE)) \
+                                        and names_in(c) & derived:
+                                    negated_cmp = True
+                    # ~np.isin(labels, requested): a missing label is not among the requested ones
+                    for e in clo:
+                        for u in ast.walk(e):
+                            if isinstance(u, ast.UnaryOp) and isinstance(u.op, ast.Invert) and isinstance(u.operand, ast.Call) \
+                                    and norm(u.operand.func) in ("np.isin", "np.in1d") and u.operand.args and names_in(u.operand.args[0]) & derived:
+                                negated_cmp = True
+                    if null_test or negated_cmp:
+                        masked = norm(n)[:50] + (" [isnull mask]" if null_test else " [negated comparison: False for NaN]")
+        ok = kinds_ok or masked is not None
+        res.inst(f"{f.qualname}: {code} <- {fn} (not missing-aware): "
+                 f"{'label kinds without missing values' if kinds_ok else masked if masked else 'NO -1 for missing labels'}", f"{fn}|{a.lineno}")
+        if not ok:
+            res.report(f"{f.qualname}|missing-not-coded|{fn}", f"flox/core.py:{a.lineno}", f.qualname,
+                       f"'{norm(a)[:80]}': {fn} gives a missing label (NaN / NaT) an ordinary code, and this branch neither restricts the labels to kinds "
+                       "without a missing value nor writes -1 under a mask that is true for missing labels: elements with a missing label form a "
+                       "group of their own instead of being dropped")
+    res.inst(f"{n_defs} code definitions examined", "count")
     return res
